@@ -73,8 +73,6 @@ theorem parseKey_spec (V : Variant) (K : Keys) (s : Src) (w : s.wf) :
     cases V
     · apply spec_pure (adv1.wf w)
       exact ⟨by rw [acc1]; simp, hc, by intro h; cases h⟩
-    · apply spec_pure (adv1.wf w)
-      exact ⟨by rw [acc1]; simp, hc, by intro h; cases h⟩
     · simp only
       split
       · rename_i heq
@@ -89,7 +87,7 @@ def wireList (count : Nat) (l : List Bytes) : Bytes := writeVarUint count ++ (l.
 def HeaderPost (V : Variant) (K : Keys) (s : Src) (h : Header) (s' : Src) : Prop :=
   seg s s' = serHeaderU h.u ++ wireList h.bkCount h.bkRaw ++ wireList h.sigCount h.sigData ∧
   WfHU h.u ∧
-  h.bkRaw.length = loopCount V h.bkCount ∧ h.sigData.length = loopCount V h.sigCount ∧
+  h.bkRaw.length = h.bkCount ∧ h.sigData.length = h.sigCount ∧
   h.bookkeepers.length = h.bkRaw.length ∧
   (∀ i (hi : i < h.bkRaw.length) (hj : i < h.bookkeepers.length), K.canon h.bkRaw[i] = some h.bookkeepers[i]) ∧
   (V = .sound → h.bookkeepers = h.bkRaw)
@@ -102,12 +100,12 @@ theorem parseHeader_spec (V : Variant) (K : Keys) (s : Src) (w : s.wf) :
   apply enc_step adv1 acc1 (rVarUint_spec true s1 (adv1.wf w))
   intro n s2 _ adv2 acc2
   apply enc_step adv2 acc2 (repeatP_spec' (parseKey V K) (fun kc => writeVarBytes kc.1)
-    (fun kc => K.canon kc.1 = some kc.2 ∧ (V = .sound → kc.2 = kc.1)) (parseKey_spec V K) (loopCount V n) s2 (adv2.wf w))
+    (fun kc => K.canon kc.1 = some kc.2 ∧ (V = .sound → kc.2 = kc.1)) (parseKey_spec V K) n s2 (adv2.wf w))
   intro bks s3 ⟨hbl, hball⟩ adv3 acc3
   apply enc_step adv3 acc3 (rVarUint_spec true s3 (adv3.wf w))
   intro m s4 _ adv4 acc4
   apply enc_step adv4 acc4 (repeatP_spec' (rVarBytes true) writeVarBytes (fun _ => True)
-    (rVarBytes_spec true) (loopCount V m) s4 (adv4.wf w))
+    (rVarBytes_spec true) m s4 (adv4.wf w))
   intro sigs s5 ⟨hsl, _⟩ adv5 acc5
   apply spec_pure (adv5.wf w)
   refine ⟨?_, hu, by simpa using hbl, hsl, by simp, ?_, ?_⟩
@@ -380,13 +378,11 @@ theorem wireList_eq_serList (count : Nat) (l : List Bytes) (h : l.length = count
   rw [h]
 
 theorem header_reencode {V : Variant} {K : Keys} {s : Src} {h : Header} {s' : Src}
-    (post : HeaderPost V K s h s') (hc : h.bookkeepers = h.bkRaw)
-    (hn : loopCount V h.bkCount = h.bkCount) (hm : loopCount V h.sigCount = h.sigCount) :
-    serHeader h = seg s s' := by
+    (post : HeaderPost V K s h s') (hc : h.bookkeepers = h.bkRaw) : serHeader h = seg s s' := by
   obtain ⟨hseg, _, hbl, hsl, _, _, _⟩ := post
   rw [hseg]
   unfold serHeader
-  rw [hc, wireList_eq_serList _ _ (by rw [hbl, hn]), wireList_eq_serList _ _ (by rw [hsl, hm])]
+  rw [hc, wireList_eq_serList _ _ hbl, wireList_eq_serList _ _ hsl]
 
 /-! ### RawHeader and CrossChainMsg -/
 
@@ -429,8 +425,8 @@ theorem parseRawHeaderUnsigned_spec (s : Src) (w : s.wf) : SpecAt parseRawHeader
   intro _ s5 a5 _
   exact spec_pure (a5.wf w4) trivial
 
-theorem parseRawHeader_spec (V : Variant) (s : Src) (w : s.wf) :
-    SpecAt (parseRawHeader V) s (fun r s' => r.payload = seg s s') := by
+theorem parseRawHeader_spec (s : Src) (w : s.wf) :
+    SpecAt parseRawHeader s (fun r s' => r.payload = seg s s') := by
   unfold parseRawHeader
   apply spec_bind' (pos_spec s w)
   intro pstart sx _ ⟨hp, hsx⟩
@@ -441,13 +437,13 @@ theorem parseRawHeader_spec (V : Variant) (s : Src) (w : s.wf) :
   apply spec_bind' (rVarUint_spec true s1 w1)
   intro n s2 a2 _
   have w2 := a2.wf w1
-  apply spec_bind' (repeatP_spec' (rVarBytes true) writeVarBytes (fun _ => True) (rVarBytes_spec true) (loopCount V n) s2 w2)
+  apply spec_bind' (repeatP_spec' (rVarBytes true) writeVarBytes (fun _ => True) (rVarBytes_spec true) n s2 w2)
   intro _ s3 a3 _
   have w3 := a3.wf w2
   apply spec_bind' (rVarUint_spec true s3 w3)
   intro m s4 a4 _
   have w4 := a4.wf w3
-  apply spec_bind' (repeatP_spec' (rVarBytes true) writeVarBytes (fun _ => True) (rVarBytes_spec true) (loopCount V m) s4 w4)
+  apply spec_bind' (repeatP_spec' (rVarBytes true) writeVarBytes (fun _ => True) (rVarBytes_spec true) m s4 w4)
   intro _ s5 a5 _
   have w5 := a5.wf w4
   have adv5 : Adv s s5 := a1.trans (a2.trans (a3.trans (a4.trans a5)))
@@ -486,33 +482,16 @@ theorem ccm_sigs_spec (n : Nat) (s : Src) (w : s.wf) :
   allInvalid_spec (spec_mono (repeatP_spec' (rVarBytes false) writeVarBytes (fun _ => True) (rVarBytes_spec false) n s w)
     (fun _ _ _ h => ⟨h.1, h.2.1⟩))
 
-/-- the rest of the decoder, whenever it does not hit the `makeslice` panic -/
-theorem parseCCMRest_spec (V : Variant) (a : UInt8 × Nat × Bytes × Nat) (hok : V = .asShipped → makeslicePanics a.2.2.2 = false)
-    (s : Src) (w : s.wf) :
-    SpecAt (parseCCMRest V a) s (fun m s' => seg s s' = (m.sigData.map writeVarBytes).flatten ∧
-      m.sigData.length = a.2.2.2 ∧ m.version = a.1 ∧ m.height = a.2.1 ∧ m.statesRoot = a.2.2.1) := by
-  have fin : ∀ k, k = a.2.2.2 → SpecAt (do
-      let sigs ← allInvalid (repeatP k (rVarBytes false))
-      pure (⟨a.1, a.2.1, a.2.2.1, sigs, a.2.2.2⟩ : CCMsg)) s (fun m s' => seg s s' = (m.sigData.map writeVarBytes).flatten ∧
-      m.sigData.length = a.2.2.2 ∧ m.version = a.1 ∧ m.height = a.2.1 ∧ m.statesRoot = a.2.2.1) := by
-    intro k hk
-    apply spec_bind' (ccm_sigs_spec k s w)
-    intro sigs s1 adv1 ⟨hseg, hl⟩
-    apply spec_pure (adv1.wf w)
-    exact ⟨hseg, by rw [← hk]; exact hl, rfl, rfl, rfl⟩
-  unfold parseCCMRest
-  cases V
-  · have hp := hok rfl
-    simp only [hp, Bool.false_eq_true]
-    apply fin
-    -- no panic means the count is far below 2^63, so the `int(n)` loop bound is the count
-    unfold makeslicePanics at hp
-    have : a.2.2.2 * sliceHeaderSize ≤ maxAlloc := by simpa using hp
-    unfold loopCount
-    have hlt : a.2.2.2 < two63 := by unfold sliceHeaderSize maxAlloc at this; unfold two63; omega
-    simp [hlt]
-  · exact fin _ rfl
-  · exact fin _ rfl
-
+theorem parseCCMsg_spec (s : Src) (w : s.wf) :
+    SpecAt parseCCMsg s (fun m s' => seg s s' = serCCMsg m) := by
+  unfold parseCCMsg
+  apply enc_step (Adv.refl w) (seg_self s) (spec_mono (parseCCMPrefix_spec s w) (fun _ _ _ h => ⟨h, trivial⟩))
+  intro a s1 _ adv1 acc1
+  apply spec_bind' (ccm_sigs_spec a.2.2.2 s1 (adv1.wf w))
+  intro sigs s2 adv2 ⟨hseg, hl⟩
+  apply spec_pure ((adv1.trans adv2).wf w)
+  rw [seg_trans adv1 adv2, acc1, hseg]
+  unfold serCCMsg serList
+  simp only [hl, List.nil_append, List.append_assoc]
 
 end OntVerif.Proofs.Block
